@@ -37,6 +37,7 @@ Did(h, k) == IF h = <<>> THEN FALSE ELSE Head(h).s.k = k \/ Did(Tail(h), k)
 
 Allowed(s) ==
   CASE s.k \in {"unsub", "closed"} -> s.a <= NHandles(H) /\ ~Consumed(H, s.a)
+    [] s.k = "mclosed" -> s.a <= NHandles(H)
     [] s.k = "mappend" -> s.a <= NHandles(H) /\ s.b <= NHandles(H) /\ s.a # s.b /\ ~Consumed(H, s.b)
     [] s.k = "connect" -> ~Did(H, "connect")
     [] OTHER -> TRUE
